@@ -424,7 +424,13 @@ func (ctrler *GovCtrler) applyProposals(height int64) ([]abytes.HexBytes, xerror
 						ctrler.logger.Error("Apply proposal", "error", err, "option", string(prop.MajorOption.Option()))
 						return xerrors.From(err)
 					}
-					ctrlertypes.MergeGovParams(&ctrler.GovParams, newGovParams)
+					// when more than one proposal is applied in the same block,
+					// the later one must be merged into the result of the earlier one.
+					baseGovParams := &ctrler.GovParams
+					if ctrler.newGovParams != nil {
+						baseGovParams = ctrler.newGovParams
+					}
+					ctrlertypes.MergeGovParams(baseGovParams, newGovParams)
 					if xerr := ctrler.paramsLedger.SetFinality(newGovParams); xerr != nil {
 						ctrler.logger.Error("Apply proposal", "error", xerr, "newGovParams", newGovParams)
 						return xerr
